@@ -314,3 +314,102 @@ func specMsgFieldsOK(stream int, function int, waitBit int, sessionID int, nSyst
 //@   property C11 C17
 //@   ensures len(result) == 4 && fresh(result)
 //@   ensures forall k int :: 0 <= k && k < 4 ==> result[k] == node.systemBytes[k]
+
+// ---------------------------------------------------------------------------------------------
+// Item nodes: shared spec functions
+
+// specVarNamePattern: the documented grammar of variable names (interface.go doc comment).
+func specVarNamePattern() string { return `^[A-Za-z_]\w*(\[\d+\])*$` }
+
+// specEllipsisPattern: "..." optionally followed by [n].
+func specEllipsisPattern() string { return `^\.{3}(\[\d+\])?$` }
+
+func specIsIntW(w int) bool { return w == 1 || w == 2 || w == 4 || w == 8 }
+
+func specIntType(w int) string {
+	if w == 1 {
+		return "i1"
+	}
+	if w == 2 {
+		return "i2"
+	}
+	if w == 4 {
+		return "i4"
+	}
+	return "i8"
+}
+
+func specUintType(w int) string {
+	if w == 1 {
+		return "u1"
+	}
+	if w == 2 {
+		return "u2"
+	}
+	if w == 4 {
+		return "u4"
+	}
+	return "u8"
+}
+
+// specInRangeI: v is representable as a w-byte two's complement integer (v is a mathematical integer).
+func specInRangeI(w int, v int) bool {
+	if w == 1 {
+		return -128 <= v && v <= 127
+	}
+	if w == 2 {
+		return -32768 <= v && v <= 32767
+	}
+	if w == 4 {
+		return -2147483648 <= v && v <= 2147483647
+	}
+	return -9223372036854775808 <= v && v <= 9223372036854775807
+}
+
+// specInRangeU: v is representable as a w-byte unsigned integer (v is a mathematical integer).
+func specInRangeU(w int, v uint64) bool {
+	if w == 1 {
+		return v <= 255
+	}
+	if w == 2 {
+		return v <= 65535
+	}
+	if w == 4 {
+		return v <= 4294967295
+	}
+	return v <= 18446744073709551615
+}
+
+// specBEByte: byte j (0 = most significant) of the w-byte big-endian two's complement encoding of v.
+func specBEByte(w int, v int, j int) int {
+	return int((uint64(v) >> ((w - 1 - j) * 8)) & 255)
+}
+
+//@ type IntNode invariant specIsIntW(self.byteSize) && len(self.values)*self.byteSize <= 16777215
+//@   invariant forall i int :: 0 <= i && i < len(self.values) ==> specInRangeI(self.byteSize, self.values[i])
+
+//@ func (*IntNode).ToBytes
+//@   property C02 C16 C01 C13
+//@   split node.byteSize in 1, 2, 4, 8
+//@   let w = node.byteSize
+//@   let n = len(node.values)
+//@   let h = 1 + specNLen(n*w)
+//@   ensures fresh(result)
+//@   ensures len(node.variables) != 0 ==> len(result) == 0
+//@   ensures len(node.variables) == 0 ==> len(result) == h + n*w
+//@   ensures len(node.variables) == 0 ==> result[0] == specFormatCode(specIntType(w))*4 + specNLen(n*w)
+//@   ensures len(node.variables) == 0 ==> forall k int :: 0 <= k && k < h-1 ==> result[1+k] == specLenByte(n*w, h-1, k)
+//@   ensures len(node.variables) == 0 ==> forall p int :: 0 <= p && p < n*w ==> result[h+p] == specBEByte(w, node.values[p/w], p%w)
+//@   loop 1
+//@     invariant 0 <= rangeindex+1 && rangeindex+1 <= n
+//@     invariant fresh(result) && len(result) == h + (rangeindex+1)*w
+//@     invariant result[0] == specFormatCode(specIntType(w))*4 + specNLen(n*w)
+//@     invariant forall k int :: 0 <= k && k < h-1 ==> result[1+k] == specLenByte(n*w, h-1, k)
+//@     invariant forall p int :: 0 <= p && p < (rangeindex+1)*w ==> result[h+p] == specBEByte(w, node.values[p/w], p%w)
+//@   loop 2
+//@     invariant -1 <= i && i < w && 0 <= rangeindex+1 && rangeindex+1 < n
+//@     invariant fresh(result) && len(result) == h + (rangeindex+1)*w + (w-1-i)
+//@     invariant result[0] == specFormatCode(specIntType(w))*4 + specNLen(n*w)
+//@     invariant forall k int :: 0 <= k && k < h-1 ==> result[1+k] == specLenByte(n*w, h-1, k)
+//@     invariant forall p int :: 0 <= p && p < (rangeindex+1)*w ==> result[h+p] == specBEByte(w, node.values[p/w], p%w)
+//@     invariant forall j int :: 0 <= j && j < w-1-i ==> result[h+(rangeindex+1)*w+j] == specBEByte(w, value, j)
